@@ -56,6 +56,13 @@ RECURSIVE SkipUntil(_, _, _)
 SkipUntil(t, p, S) == IF p <= Len(t) /\ t[p] \notin S THEN SkipUntil(t, p + 1, S) ELSE p
 Sub(t, a, b) == IF a > b THEN <<>> ELSE SubSeq(t, a, b)       \* characters a..b
 
+\* the words of a text: maximal runs of non-blank characters (how a registered name list "name syn1 syn2" is split)
+RECURSIVE WordsFrom(_, _)
+WordsFrom(t, p) ==
+  LET a == SkipWhile(t, p, Space)  b == SkipUntil(t, a, Space)
+  IN IF a > Len(t) THEN <<>> ELSE <<Sub(t, a, b - 1)>> \o WordsFrom(t, b)
+Words(t) == WordsFrom(t, 1)
+
 ----------------------------------------------------------------------------
 (* the option table *)
 IsPrefix(h, t) == Len(h) <= Len(t) /\ \A i \in 1..Len(h) : t[i] = h[i]
